@@ -121,14 +121,14 @@ Proof.
 Qed.
 
 (* ------------------------------------------------------------------ as_polyline edges *)
-Lemma polyline_edges_eq n_pts m : polyline_edges n_pts m = map (fun i => (i, i + 1)) (zrange (m - 1)).
+Lemma polyline_edges_eq n_pts k m : polyline_edges n_pts k m = map (fun i => (i, i + 1)) (zrange (m - 1)).
 Proof. unfold polyline_edges. apply flat_map_single. Qed.
 
 (* m sampled positions -> exactly the m-1 edges (i, i+1), whatever n_pts is *)
-Lemma polyline_edges_spec n_pts m :
-  Z.of_nat (length (polyline_edges n_pts m)) = Z.max 0 (m - 1) /\
-  (forall i, 0 <= i < m - 1 -> nth_error (polyline_edges n_pts m) (Z.to_nat i) = Some (i, i + 1)) /\
-  (forall a b, In (a, b) (polyline_edges n_pts m) -> 0 <= a /\ b = a + 1 /\ b < m).
+Lemma polyline_edges_spec n_pts k m :
+  Z.of_nat (length (polyline_edges n_pts k m)) = Z.max 0 (m - 1) /\
+  (forall i, 0 <= i < m - 1 -> nth_error (polyline_edges n_pts k m) (Z.to_nat i) = Some (i, i + 1)) /\
+  (forall a b, In (a, b) (polyline_edges n_pts k m) -> 0 <= a /\ b = a + 1 /\ b < m).
 Proof.
   rewrite polyline_edges_eq. repeat split.
   - rewrite map_length, zrange_length. lia.
